@@ -14,8 +14,45 @@ pub(super) fn evaluate_graph_function<S: GraphSnapshot>(
         "labels" => Some(evaluate_labels(args, snapshot)),
         "type" => Some(evaluate_type(args, snapshot)),
         "id" => Some(evaluate_id(args)),
+        "__nervus_paths_edge_disjoint" => Some(evaluate_paths_edge_disjoint(args, snapshot)),
         _ => None,
     }
+}
+
+/// Internal planner helper: true unless the given paths together use some relationship more
+/// often than it exists (parallel relationships of one key may be used once each).
+fn evaluate_paths_edge_disjoint<S: GraphSnapshot>(args: &[Value], snapshot: &S) -> Value {
+    let mut used: std::collections::BTreeMap<nervusdb_api::EdgeKey, usize> =
+        std::collections::BTreeMap::new();
+    for arg in args {
+        match arg {
+            Value::Path(path) => {
+                for edge in &path.edges {
+                    *used.entry(*edge).or_insert(0) += 1;
+                }
+            }
+            Value::ReifiedPath(path) => {
+                for rel in &path.relationships {
+                    *used.entry(rel.key).or_insert(0) += 1;
+                }
+            }
+            _ => {}
+        }
+    }
+    for (edge, count) in used {
+        if count < 2 {
+            continue;
+        }
+        let available = snapshot
+            .neighbors(edge.src, Some(edge.rel))
+            .filter(|candidate| candidate.dst == edge.dst)
+            .count()
+            .max(1);
+        if count > available {
+            return Value::Bool(false);
+        }
+    }
+    Value::Bool(true)
 }
 
 fn evaluate_start_node<S: GraphSnapshot>(args: &[Value], row: &Row, snapshot: &S) -> Value {
